@@ -5,7 +5,7 @@ CONSTANTS
   Styles = {"rfc", "stamped"}
   MaxC = 2
   Kinds = {"axfr", "ixfr1", "ixfr2", "fallback"}
-  MaxMsgs = 2
+  MaxMsgs = 1
   FaultKinds = {"none"}
   LaterQ = {FALSE}
 SPECIFICATION Spec
